@@ -288,10 +288,8 @@ class CGMYModel(LevyModel):
     def __init__(self, parameters: CGMYParameters):
         self.parameters = parameters
         cumulant = _CGMYCumulant(drift=0, parameters=parameters)
-        if parameters.y < 0.0:
-            representation = LevyRepresentation.ZERO
-        else:
-            representation = LevyRepresentation.CENTER
+        # levy_exponent_pure_jump carries the compensator of the center representation for every y
+        representation = LevyRepresentation.CENTER
 
         triplet = LevyTriplet(
             a=0,
